@@ -431,6 +431,11 @@ def translate_contracts():
         'named': ((mr('a'),), ()),
         'mixed': ((TVal, mr('a'), TVal, mr('b')), ('c',)),
         'collision': ((mr('a'),), ('a',)),
+        # one name written twice: refused like the collision above - the
+        # earlier operand would otherwise be dropped without ever being
+        # evaluated (C11: every eager operand is evaluated exactly once)
+        'repeated': ((mr('a'), mr('a')), ()),
+        'repeated-apart': ((mr('a'), TVal, mr('b'), mr('a')), ()),
     }
     for nm, (items, keys) in shapes.items():
         plain = [i for i, t in enumerate(items) if t is TVal]
@@ -441,7 +446,8 @@ def translate_contracts():
                                   for i, k in named] +
                                  ['"%s": kwargs["%s"]' % (k, k)
                                   for k in keys]) + '}'
-        collide = any(k in [kk for _, kk in named] for k in keys)
+        collide = any(k in [kk for _, kk in named] for k in keys) or \
+            len({kk for _, kk in named}) < len(named)
         cs.append(Contract(
             M + 'translate_args', name='runner.translate_args/' + nm,
             params=dict(without_kwargs=False, args=mixed(items),
@@ -453,7 +459,7 @@ def translate_contracts():
             ensures=['False'] if collide else [
                 'result[0] == ' + exp_pos, 'result[1] == ' + exp_kw],
             always_raises=collide,
-            serves=('C05', 'C12'), native=False))
+            serves=('C05', 'C12', 'C11'), native=False))
     cs.append(Contract(
         M + 'translate_args', name='runner.translate_args/no_kwargs',
         params=dict(without_kwargs=True, args=tuple_of(TVal, 2),
